@@ -1,2 +1,7 @@
 import Driver.Proto
 import Driver.Url
+import Driver.Ruler
+import Driver.ErasedSet
+import Driver.Tree
+import Driver.Render
+import Driver.SourceMap
